@@ -1,1 +1,239 @@
-/- C14 — property theorems (stub: the slice is not built yet). -/
+import GB.C14.Proofs
+/-
+  C14 — property theorems.  `parseRPCName`, `routeGRPC`, `routeHTTPsvc` model
+  routing/service_router.go (after fix D16), `setPath`/`parseTarget`/`httpName`/`webName` model what
+  net/http + net/url put into `URL.Path` / `URL.RawPath` and which of the two each entry point reads;
+  the ownership table is C06's `SvcState` (claims, keeps, releases).
+-/
+set_option linter.unusedSimpArgs false
+set_option linter.unusedVariables false
+open GB GB.C06 GB.C14
+
+/-- **Parsing = the specification, for every byte string**: `s` is accepted as (service, method) iff,
+    after removing one optional leading '/', it reads `service '/' method` with no '/' inside the service —
+    the method is the entire remainder (further slashes, empty parts, dots, escapes included). -/
+theorem C14_parse (s svc m : Bytes) : parseRPCName s = some (svc, m) ↔ Names s svc m :=
+  parse_iff s svc m
+
+/-- Malformed names are exactly those without a '/' after the optional leading one. -/
+theorem C14_parse_malformed (s : Bytes) : parseRPCName s = none ↔ slash ∉ strip s := by
+  rw [parseRPCName_eq, cutSlash_none]
+
+/-- **gRPC form**: owner found ⇒ routed to it with the canonical name built from the verbatim method;
+    unknown service ⇒ Unimplemented; malformed ⇒ Unimplemented. -/
+theorem C14_route_grpc (pool : Name → Bool) (routes : SvcName → Option SvcRoute) (s : Bytes) :
+    specGRPC pool routes s (routeGRPC pool routes (some s)) := by
+  refine ⟨?_, ?_, ?_⟩
+  · intro svc m r hn hr hp
+    simp [routeGRPC, (parse_iff s svc m).mpr hn, hr, hp, canonicalRPCName]
+  · intro svc m hn hr
+    simp [routeGRPC, (parse_iff s svc m).mpr hn, hr]
+  · intro hno
+    cases hp : parseRPCName s with
+    | none => simp [routeGRPC, hp]
+    | some p =>
+      obtain ⟨svc, m⟩ := p
+      exact absurd ⟨svc, m, (parse_iff s svc m).mp hp⟩ hno
+
+/-- **Method passed verbatim**: whenever a call is routed, the RPC name handed on is '/' followed by
+    the incoming name without its optional leading '/', byte for byte. -/
+theorem C14_method_verbatim (pool : Name → Bool) (routes : SvcName → Option SvcRoute) (s : Bytes)
+    (t : Name) (v : Ver) (i : Nat) (rpc : Bytes)
+    (h : routeGRPC pool routes (some s) = .ok t v i rpc) :
+    rpc = slash :: strip s ∧ ∃ svc m r, Names s svc m ∧ routes svc = some r ∧ r = ⟨t, v, i⟩ := by
+  simp only [routeGRPC] at h
+  cases hp : parseRPCName s with
+  | none => simp [hp] at h
+  | some p =>
+    obtain ⟨svc, m⟩ := p
+    simp only [hp] at h
+    cases hr : routes svc with
+    | none => simp [hr] at h
+    | some r =>
+      simp only [hr] at h
+      split at h
+      · simp only [GRPCRes.ok.injEq] at h
+        obtain ⟨h1, h2, h3, h4⟩ := h
+        have hn := (parse_iff s svc m).mp hp
+        refine ⟨?_, svc, m, r, hn, hr, ?_⟩
+        · rw [← h4, hn.1]; simp [canonicalRPCName]
+        · cases r; simp_all
+      · cases h
+
+/-- The pool is only asked for the owner's connection: no connection ⇒ Unavailable; no method in
+    the context ⇒ Internal. -/
+theorem C14_route_grpc_other_codes (pool : Name → Bool) (routes : SvcName → Option SvcRoute) :
+    routeGRPC pool routes none = .status codeInternal ∧
+    ∀ s svc m r, Names s svc m → routes svc = some r → pool r.target = false →
+      routeGRPC pool routes (some s) = .status codeUnavailable := by
+  refine ⟨rfl, ?_⟩
+  intro s svc m r hn hr hp
+  simp [routeGRPC, (parse_iff s svc m).mpr hn, hr, hp]
+
+/-- **HTTP form, codes**: non-POST ⇒ Unimplemented with HTTP status 405; POST with a malformed or unknown
+    name ⇒ NotFound; POST of a known service ⇒ same target, same verbatim method as the gRPC form, with the
+    default binding of that method. -/
+theorem C14_route_http (pool : Name → Bool) (routes : SvcName → Option SvcRoute) (hm name : Bytes) :
+    (hm ≠ POST → routeHTTPsvcName pool routes hm name = .status codeUnimplemented (some 405)) ∧
+    (hm = POST → (∀ svc m, Names name svc m → routes svc = none) →
+        routeHTTPsvcName pool routes hm name = .status codeNotFound none) ∧
+    (hm = POST → ∀ t v i rpc, routeGRPC pool routes (some name) = .ok t v i rpc →
+        routeHTTPsvcName pool routes hm name = .ok t v i rpc POST rpc) := by
+  refine ⟨?_, ?_, ?_⟩
+  · intro h; simp [routeHTTPsvcName, h]
+  · intro h hno
+    subst h
+    simp only [routeHTTPsvcName, ne_eq, not_true_eq_false, ↓reduceIte]
+    cases hp : parseRPCName name with
+    | none => rfl
+    | some p =>
+      obtain ⟨svc, m⟩ := p
+      simp [hno svc m ((parse_iff name svc m).mp hp)]
+  · intro h t v i rpc hg
+    subst h
+    simp only [routeGRPC] at hg
+    simp only [routeHTTPsvcName, ne_eq, not_true_eq_false, ↓reduceIte]
+    cases hp : parseRPCName name with
+    | none => simp [hp] at hg
+    | some p =>
+      obtain ⟨svc, m⟩ := p
+      simp only [hp] at hg ⊢
+      cases hr : routes svc with
+      | none => simp [hr] at hg
+      | some r =>
+        simp only [hr] at hg ⊢
+        split at hg
+        · rename_i hpool
+          simp only [GRPCRes.ok.injEq] at hg
+          obtain ⟨h1, h2, h3, h4⟩ := hg
+          rw [h1] at hpool
+          simp [hpool, h1, h2, h3, h4]
+        · cases hg
+
+/-- **The HTTP form works on requests as net/http delivers them**: for every origin-form request target
+    that `url.ParseRequestURI` accepts, `RouteHTTP` routes by the request path exactly as written on the
+    request line (everything before the first '?'), although `URL.RawPath` is empty for ordinary paths. -/
+theorem C14_http_real_request (pool : Name → Bool) (routes : SvcName → Option SvcRoute) (hm t : Bytes) (u : URL)
+    (h : parseTarget t = some u) :
+    routeHTTPsvc pool routes hm u = routeHTTPsvcName pool routes hm (targetPath t) := by
+  unfold parseTarget at h
+  split at h
+  · rename_i rest
+    rcases httpName_setPath _ u h with hn | ⟨hp, _⟩
+    · simp [routeHTTPsvc, hn]
+    · -- the path of an origin-form target starts with '/', it is not "%2A"
+      exfalso
+      simp [targetPath, List.takeWhile_cons] at hp
+  · cases h
+
+/-- For every path `setPath` accepts (not only origin-form ones) the name read is the path as written,
+    the asterisk form `%2A` being the only exception. -/
+theorem C14_http_name (p : Bytes) (u : URL) (h : setPath p = some u) :
+    httpName u = p ∨ (p = [37, 50, 65] ∧ u = ⟨[42], []⟩) :=
+  httpName_setPath p u h
+
+/-- **All three entry points agree on ordinary names**: for a path made only of bytes net/url leaves
+    unescaped (letters, digits, `. _ - ~ / : @ & = + $ , ;` — every legal gRPC name), the request URL has
+    an empty RawPath, and gRPC (`:path` verbatim), gRPC-Web (`URL.Path`) and HTTP POST (`RawPath`, else the
+    escaped path) read the same name. -/
+theorem C14_forms_agree (p : Bytes) (hp : Plain p) (hs : p.head? = some slash) :
+    parseTarget p = some ⟨p, []⟩ ∧ webName ⟨p, []⟩ = p ∧ httpName ⟨p, []⟩ = p := by
+  have ht := targetPath_plain p hp
+  have hu := unescapePath_plain p hp
+  have he := escapePath_plain p hp
+  refine ⟨?_, rfl, ?_⟩
+  · cases p with
+    | nil => simp at hs
+    | cons c cs =>
+      simp only [List.head?_cons, Option.some.injEq] at hs
+      subst hs
+      show setPath (targetPath (slash :: cs)) = _
+      rw [ht]
+      simp [setPath, hu, he]
+  · simp only [httpName, escapedPathNoRaw]
+    have : p ≠ [42] := by
+      intro e; subst e; simp [slash] at hs
+    simp [this, he]
+
+/-- **First claimant keeps a contested service** over any claim history: if after a history `h` target `n`
+    owns `svc`, then after any continuation in which `n` is not closed and every description delivered for
+    `n` still lists `svc`, `n` still owns it — whatever the other targets claim, keep or release. -/
+theorem C14_first_claimant (h ops : List Op) (n : Name) (svc : SvcName)
+    (hown : ∃ r, (SvcState.init.run h).routes svc = some r ∧ r.target = n)
+    (hk : Keeps n svc ops) :
+    ∃ r, (SvcState.init.run (h ++ ops)).routes svc = some r ∧ r.target = n := by
+  have : SvcState.init.run (h ++ ops) = (SvcState.init.run h).run ops := by
+    simp [SvcState.run, List.foldl_append]
+  rw [this]
+  exact first_claimant_run n svc ops _ (C06_service_invariant_base h) hown hk
+where
+  C06_service_invariant_base (h : List Op) : SInv0 (SvcState.init.run h) := SInv0_run SInv0_init h
+
+/-- A later claimant of an owned service gets nothing: its update leaves the route untouched. -/
+theorem C14_later_claimant (h : List Op) (n : Name) (d : Desc) (svc : SvcName) (r : SvcRoute)
+    (hr : (SvcState.init.run h).routes svc = some r) (hne : r.target ≠ n) :
+    (SvcState.init.run (h ++ [.update n d])).routes svc = some r := by
+  rw [run_snoc_svc]
+  have inv : SInv0 (SvcState.init.run h) := SInv0_run SInv0_init h
+  simp only [SvcState.step]
+  split
+  · exact hr
+  · split
+    · exact hr
+    · rename_i hd
+      have hd' : d.name = n := by simpa using hd
+      rw [update_foreign inv d svc ⟨r, hr, by rw [hd']; exact hne⟩]; exact hr
+
+/-- **Release**: when the owner is closed, or delivers a description that no longer lists the service,
+    the service is unrouted (Unimplemented / NotFound) until some target claims it with a later update. -/
+theorem C14_release (h : List Op) (n : Name) (svc : SvcName) (r : SvcRoute)
+    (hr : (SvcState.init.run h).routes svc = some r) (hn : r.target = n) :
+    (SvcState.init.run (h ++ [.close n])).routes svc = none ∧
+    ∀ d, d.name = n → ¬ listed d.services svc → (SvcState.init.run (h ++ [.update n d])).routes svc = none := by
+  have inv : SInv (SvcState.init.run h) (latestOf h) := SInv_run SInv_init h
+  have hw : (SvcState.init.run h).watching n = true := by
+    rw [inv.watch, ← hn]
+    obtain ⟨d, hd, _⟩ := specSvcRoute_some (inv.latest _ _ hr)
+    exact desc_some_watched _ _ d hd
+  constructor
+  · rw [run_snoc_svc]
+    simp only [SvcState.step, hw, Bool.not_true, Bool.false_eq_true, ↓reduceIte]
+    show ((SvcState.init.run h).removeTarget n).routes svc = none
+    rw [removeTarget_routes]
+    have := inv.base.owned _ _ hr
+    rw [hn] at this
+    simp [this]
+  · intro d hd hl
+    rw [run_snoc_svc]
+    simp only [SvcState.step, hw, Bool.not_true, Bool.false_eq_true, ↓reduceIte, hd, ne_eq, not_true_eq_false]
+    apply update_unlisted inv.base d svc hl
+    rintro ⟨o, ho, hne⟩
+    rw [hr] at ho; cases ho
+    exact hne (hn.trans hd.symm)
+
+/-! ### D16: what was wrong before the fix (kernel-checked witness on explicit data) -/
+
+/-- the request target `/S/M` as net/http parses it: Path = "/S/M", RawPath = "" -/
+theorem C14_ordinary_request_has_empty_rawpath :
+    parseTarget [47, 83, 47, 77] = some ⟨[47, 83, 47, 77], []⟩ := by decide
+
+/-- Before fix D16 (`routeHTTPsvcPreFix` reads `URL.RawPath` only) that request is NotFound although
+    target "a" owns service "S" … -/
+theorem C14_http_real_request_fails_before_fix :
+    routeHTTPsvcPreFix (fun _ => true) (fun s => if s = [83] then some ⟨[97], 1, 0⟩ else none) POST
+      ⟨[47, 83, 47, 77], []⟩ = .status codeNotFound none := by decide
+
+/-- … whereas the fixed code routes it to "a" with the method name "/S/M". -/
+theorem C14_http_real_request_ok_after_fix :
+    routeHTTPsvc (fun _ => true) (fun s => if s = [83] then some ⟨[97], 1, 0⟩ else none) POST
+      ⟨[47, 83, 47, 77], []⟩ = .ok [97] 1 0 [47, 83, 47, 77] POST [47, 83, 47, 77] := by decide
+
+/-! ### non-vacuity -/
+
+example : Names [47, 112, 46, 83, 47, 77, 47, 120] [112, 46, 83] [77, 47, 120] := by unfold Names; decide
+example : Names [112, 46, 83, 47] [112, 46, 83] [] := by unfold Names; decide
+example : parseRPCName [47, 47, 77] = some ([], [77]) := by decide
+example : Plain [47, 112, 46, 83, 47, 77] := by unfold Plain; decide
+/-- an escaped path is *not* read alike by the HTTP form (verbatim) and the gRPC-Web form (decoded) -/
+example : (parseTarget [47, 112, 37, 50, 69, 83, 47, 77]).map (fun u => (httpName u, webName u)) =
+    some ([47, 112, 37, 50, 69, 83, 47, 77], [47, 112, 46, 83, 47, 77]) := by decide
